@@ -57,6 +57,10 @@ type ShipConnection struct {
 
 	lastReceivedWaitingValue time.Duration // required for Prolong-Request-Reply-Timer
 
+	// an approval was received after the decision for the pending state was taken
+	// and before that state was entered
+	approvedEarly bool
+
 	shutdownOnce sync.Once
 
 	// closing the data connection and reporting it has to happen exactly once
@@ -124,7 +128,14 @@ func (c *ShipConnection) ShipHandshakeState() (model.ShipMessageExchangeState, e
 
 // invoked when pairing for a pending request is approved
 func (c *ShipConnection) ApprovePendingHandshake() {
-	state := c.getState()
+	c.mux.Lock()
+	state := c.smeState
+	if state == model.SmeHelloState || state == model.SmeHelloStatePendingInit {
+		// the pending state is just being entered, keep the approval until this is done
+		c.approvedEarly = true
+	}
+	c.mux.Unlock()
+
 	if state != model.SmeHelloStatePendingListen || c.getShutdown() {
 		// TODO: what to do if the state is different?
 
